@@ -44,8 +44,8 @@ def confirm(name):
     try:
         rc, out = sh(["git", "-C", scratch, "apply", os.path.join(SEEDED, name, "patch.diff")])
         if rc: return False, "patch does not apply: " + out[-300:]
-        rc, out = sh("cargo test --workspace --offline 2>&1 | grep -E '^test result|error' ", cwd=scratch)
-        ok = "FAILED" not in out and "error" not in out and out.count("test result: ok") >= 2
+        rc, out = sh("cargo test --workspace --offline 2>&1 | grep -E '^test result|^error' ", cwd=scratch)
+        ok = "FAILED" not in out and not re.search(r"\berror(\[|:)", out) and out.count("test result: ok") >= 2
         return ok, " | ".join(l.strip() for l in out.strip().split("\n"))[:400]
     finally:
         sh(["git", "-C", "/repo", "worktree", "remove", "--force", scratch]); sh(["rm", "-rf", scratch])
